@@ -114,6 +114,14 @@ func buildTrigger(sa flows.SessionAssets, spec map[string]any) (flows.Trigger, e
 			fb = fb.WithCall(callCh, callURN)
 		}
 		return fb.Build(), nil
+	case "optin":
+		ev := spec["event"].(map[string]any)
+		o := ev["optin"].(map[string]any)
+		optIn := sa.OptIns().Get(assets.OptInUUID(o["uuid"].(string)))
+		if optIn == nil || params != nil {
+			return nil, nil
+		}
+		return tb.OptIn(optIn, triggers.OptInEventType(ev["type"].(string))).Build(), nil
 	case "channel":
 		ev := spec["event"].(map[string]any)
 		c := ev["channel"].(map[string]any)
